@@ -231,6 +231,11 @@ class Linear(Sub):
                 kw = {"R": Rm}
             if name == "UKF":
                 kw["k"] = k
+            if i == 1 and case["seed"] % 5 == 1:
+                import copy as _copy
+                with rec.sut("copy.deepcopy(filter)"):
+                    flt = _copy.deepcopy(flt)          # nn.Module semantics: an independent filter with the same registered Q, R and model
+                rec.label("filter_deepcopied_mid_run")
             if bufs is not None:
                 # the caller keeps estimate, covariance, input and measurement in preallocated tensors that are overwritten in place
                 # before every call, and hands the SAME tensor objects to the filter each time (a stale value cached against the
